@@ -8,6 +8,7 @@ import NngModel.Proofs.RepSteps
 import NngModel.Proofs.RepOrder
 import NngModel.Proofs.RepRecent
 import NngModel.Proofs.RawHdr
+import NngModel.Proofs.RepJudge
 import NngModel.Generated.Base
 import NngModel.Generated.C04REP
 namespace Nng.C04Rep
@@ -196,7 +197,7 @@ theorem xreq_receive_header (b : Bytes) :
 theorem xreq_header_within_capacity (b h body : Bytes) (hr : Nng.Xreq.recvHeader b = .ok h body) :
     h.length ≤ Nng.Generated.headerCap ∧ 4 ≤ h.length ∧ h ++ body = b := Nng.RawProofs.xreq_header_fits b h body hr
 
-/-! ### not proved -/
+/-! ### JUDGE — the executable specification accepts every trace of the model -/
 
 def sendBodies (evs : List Ev) : List Bytes :=
   evs.filterMap fun e => match e with | .send _ _ m _ => some m.body | _ => none
@@ -205,13 +206,74 @@ def arrivalBodies (evs : List Ev) : List Bytes :=
     | .recvDone _ (.ok b) => some (b.drop (4 * Nng.RepSpec.leadingHops b + 4))
     | _ => none
 
-/-- NOT PROVED (only tested: the judge is run on every model-equal implementation trace and on the
-    corpus): the executable specification accepts every trace of the model, provided reply bodies and
-    request bodies are pairwise distinct (the judge identifies messages by their bodies).  What is
-    proved instead are the invariants above, which state the same clauses on the model's ghost logs. -/
-def rep_judge_accepts_model_statement : Prop :=
-  ∀ evs : List Ev, (sendBodies evs).Nodup → (arrivalBodies evs).Nodup →
-    Nng.RepSpec.repJudge (evs.zip (run {} evs).2) = none
+theorem sendBodies_eq (evs : List Ev) : sendBodies evs = bodiesOf evs := by
+  unfold sendBodies bodiesOf
+  induction evs with
+  | nil => rfl
+  | cons e es ih => cases e <;> simp [List.filterMap_cons, evBody, ih]
+
+/-- JUDGE: for every event sequence the trace of the model is accepted by the executable trace predicate
+    `repJudge` (Spec/Rep.lean) — the predicate the check runs on every trace of the implementation.
+    Hypotheses (each is needed, see the `rep_judge_needs_*` theorems below):
+    * `NoBadAbort`: no `abort aio 0` / `abort aio NNG_ESTATE` (harness-only operation `nng_aio_abort` with a
+      result the protocol never produces for a parked operation: "success" without a message, resp. the code
+      that the specification reserves for state-machine violations);
+    * `SlotsFresh`: `ctx_open c` only on a free harness slot (the judge names contexts by their slot; the
+      generator never re-opens an occupied slot);
+    * reply bodies pairwise distinct (the judge identifies replies by their bodies).
+    Distinctness of the request bodies (`arrivalBodies`) turned out not to be needed. -/
+theorem rep_judge_accepts_model (evs : List Ev) (hab : NoBadAbort evs) (hsl : SlotsFresh {} evs)
+    (hs : (sendBodies evs).Nodup) :
+    Nng.RepSpec.repJudge (evs.zip (run {} evs).2) = none :=
+  rep_judge_ok evs hab hsl (sendBodies_eq evs ▸ hs)
+
+/-- the statement of the original hand-over (with both distinctness hypotheses) follows -/
+theorem rep_judge_accepts_model_orig (evs : List Ev) (hab : NoBadAbort evs) (hsl : SlotsFresh {} evs) :
+    (sendBodies evs).Nodup → (arrivalBodies evs).Nodup →
+    Nng.RepSpec.repJudge (evs.zip (run {} evs).2) = none :=
+  fun hs _ => rep_judge_accepts_model evs hab hsl hs
+
+instance (s : State) (e : Ev) : Decidable (slotFree s e) := by
+  cases e <;> (unfold slotFree; infer_instance)
+
+instance slotsFreshDec : ∀ (evs : List Ev) (s : State), Decidable (SlotsFresh s evs)
+  | [], _ => isTrue trivial
+  | e :: es, s =>
+    have := slotsFreshDec es (step s e).1
+    (inferInstance : Decidable (slotFree s e ∧ SlotsFresh (step s e).1 es))
+
+instance (s : State) (evs : List Ev) : Decidable (SlotsFresh s evs) := slotsFreshDec evs s
+
+instance (evs : List Ev) : Decidable (NoBadAbort evs) := by unfold NoBadAbort; infer_instance
+
+/-- `abort aio 0` completes a parked receive "successfully" without a message: rejected by the specification -/
+def cexAbort0 : List Ev := [.openSock "rep" false, .recv none 0 .inf, .abort 0 0]
+theorem rep_judge_needs_no_abort0 :
+    SlotsFresh {} cexAbort0 ∧ (sendBodies cexAbort0).Nodup ∧
+    (Nng.RepSpec.repJudge (cexAbort0.zip (run {} cexAbort0).2)).isSome = true := by decide
+
+/-- `abort aio NNG_ESTATE` makes a first receive fail with the code reserved for a second concurrent receive -/
+def cexAbortEstate : List Ev := [.openSock "rep" false, .recv none 0 .inf, .abort 0 Err.estate]
+theorem rep_judge_needs_no_abort_estate :
+    SlotsFresh {} cexAbortEstate ∧ (sendBodies cexAbortEstate).Nodup ∧
+    (Nng.RepSpec.repJudge (cexAbortEstate.zip (run {} cexAbortEstate).2)).isSome = true := by decide
+
+/-- re-opening an occupied harness slot orphans a context whose pending receive the judge then attributes
+    to the new context of that slot -/
+def cexReopen : List Ev :=
+  [.openSock "rep" false, .ctxOpen 0, .recv (some 0) 0 .inf, .ctxOpen 0, .recv (some 0) 1 .inf]
+theorem rep_judge_needs_fresh_slots :
+    NoBadAbort cexReopen ∧ (sendBodies cexReopen).Nodup ∧
+    (Nng.RepSpec.repJudge (cexReopen.zip (run {} cexReopen).2)).isSome = true := by decide
+
+/-- two replies with the same body look like one reply put on the wire twice -/
+def cexSameBody : List Ev :=
+  [.openSock "rep" false, .pipeAdd 48,
+   .recvDone 0 (.ok [0x80, 0, 0, 1, 0xa1]), .recv none 0 .nb, .send none 1 ⟨[], [0xbb]⟩ .nb, .sendDone 0 0,
+   .recvDone 0 (.ok [0x80, 0, 0, 2, 0xa2]), .recv none 2 .nb, .send none 3 ⟨[], [0xbb]⟩ .nb]
+theorem rep_judge_needs_distinct_bodies :
+    NoBadAbort cexSameBody ∧ SlotsFresh {} cexSameBody ∧
+    (Nng.RepSpec.repJudge (cexSameBody.zip (run {} cexSameBody).2)).isSome = true := by decide
 
 /-! ### non-vacuity -/
 
@@ -224,6 +286,21 @@ def demo : List Ev :=
 example : (reach demo).wire.map (fun w => (w.pipe, w.hdr, w.body)) = [(0, [0, 0, 0, 7, 0x80, 0, 0, 1], [0xbb])] := by decide
 example : (reach demo).closed = false := by decide
 example : Nng.RepSpec.repJudge (demo.zip (run {} demo).2) = none := by decide
+/-- the hypotheses of `rep_judge_accepts_model` hold for `demo` ... -/
+example : NoBadAbort demo ∧ SlotsFresh {} demo ∧ (sendBodies demo).Nodup := by decide
+
+/-- ... and for a longer history: two contexts, a reply queued behind a send in flight, a parked receive that is
+    cancelled, a harmless abort, poll, context close, pipe drop, socket close -/
+def demo2 : List Ev :=
+  [.openSock "rep" false, .ctxOpen 0, .ctxOpen 1, .pipeAdd 48,
+   .recvDone 0 (.ok [0x80, 0, 0, 1, 0xa1]), .recv (some 0) 0 .nb,
+   .recvDone 0 (.ok [0, 0, 0, 7, 0x80, 0, 0, 2, 0xa2]), .recv (some 1) 1 .nb,
+   .send (some 0) 2 ⟨[], [0xb1]⟩ .nb, .send (some 1) 3 ⟨[], [0xb2]⟩ .inf, .sendDone 0 0,
+   .recv none 4 .inf, .cancel 4, .abort 9 Err.etimedout, .poll, .ctxClose 0, .pipeDrop 0, .close]
+example : NoBadAbort demo2 ∧ SlotsFresh {} demo2 ∧ (sendBodies demo2).Nodup := by decide
+example : (reach demo2).wire.map (fun w => (w.pipe, w.body)) = [(0, [0xb1]), (0, [0xb2])] := by decide
+example : Nng.RepSpec.repJudge (demo2.zip (run {} demo2).2) = none :=
+  rep_judge_accepts_model demo2 (by decide) (by decide) (by decide)
 example : parseBacktrace 8 [0, 0, 0, 7, 0x80, 0, 0, 1, 0xaa] = .ok [0, 0, 0, 7, 0x80, 0, 0, 1] [0xaa] := by decide
 example : parseBacktrace 1 [0, 0, 0, 7, 0x80, 0, 0, 1, 0xaa] = .drop := by decide
 example : parseBacktrace 8 [0, 0, 0, 7, 0x80, 0] = .malformed := by decide
